@@ -38,6 +38,7 @@ fn arg_text(a: &Value, lits: &[Value]) -> String {
         "p" => format!("o{}", n),
         "int" => format!("{}", n),
         "chr" => format!("(integer->char {})", n),
+        "rep" => ["(/ 4 2)", "(- 100000000000000000000 99999999999999999998)", "(/ 3 3)"].get((n - 1) as usize).map(|s| s.to_string()).unwrap_or("'bad-rep".into()),
         "big" => BIG.get((n - 1) as usize).map(|s| s.to_string()).unwrap_or("'bad-big".into()),
         "lit" => lits.get((n - 1) as usize).map(lit_text).unwrap_or("'bad-literal".into()),
         _ => "'bad-argument".into(),
